@@ -1,6 +1,7 @@
 package main
 
 import (
+	"sync"
 	"errors"
 	"fmt"
 	"net"
@@ -122,7 +123,10 @@ type hlink struct {
 	closing  atomic.Bool
 	started  time.Time
 	drop     bool
+	park     func() // when set: called at the start of every Send (forces interleavings)
 }
+
+var hlinkQueueMu sync.Mutex
 
 func (l *hlink) String() string                 { return fmt.Sprintf("hlink %s->%s", l.from.name, l.to.name) }
 func (l *hlink) Peer() netip.Addr               { return l.to.id.IP }
@@ -160,7 +164,12 @@ func (l *hlink) Send(f frame.Frame) error {
 		return nil
 	}
 	data := append([]byte(nil), d[peering.FrameOffset:len(d)-peering.FrameOverhead]...)
+	if l.park != nil {
+		l.park()
+	}
+	hlinkQueueMu.Lock()
 	l.from.world.queue = append(l.from.world.queue, &inflight{link: l, data: data})
+	hlinkQueueMu.Unlock()
 	return nil
 }
 
